@@ -36,7 +36,7 @@ inductive Variant | asIs | repaired
 deriving DecidableEq, Repr, Inhabited
 
 /-- THE switch: which code `unify` stands for -/
-def Variant.current : Variant := .asIs
+def Variant.current : Variant := .repaired
 
 /-- the dict under construction / returned: values may be `None` -/
 abbrev UMap := List (Ty × Option Ty)
